@@ -43,6 +43,7 @@ def run(ctx):
         fams.append(("intern-churn #%d" % k, lang.intern_churn_program(rng)))
         fams.append(("deep-frames #%d" % k, lang.deep_frames_program(rng)))
         fams.append(("order-in-calls #%d" % k, lang.order_in_calls_shadowed(rng)))
+        fams.append(("floats #%d" % k, lang.float_program(rng)))
     for k in range(20 if quick else 400):
         text, flags = gen_prog.gen(random.Random(ctx.seed * 15485863 + k), size=1.3)
         fams.append(("generated #%d" % k, text))
